@@ -29,10 +29,19 @@ C["C16"] = dict(engine="E4 conc/sesscache", design_ref="DESIGN.md §4 C16",
   text="Lean 4 proof of the session-cache protocol (Get with eviction/expiry, usage counter, remover goroutines, holder Close, factory Close) as a transition system with any number of holders and arbitrary schedules: a held session is never closed, a hit returns the cached session (sharing), every session is in exactly one life phase (cached / one remover / closed once), the remover is enabled once users reach zero, factory close hands every cached session to a remover. Protocol facts regenerated from session_cache.go; two variants proved unsafe on witnesses.",
   note=TB + "Inner session behaviour is engine E3; real scheduler explored by hxconc (sesscache-* preemption scenarios for all four policies at capacity 1, stress with session cache), not proved; session expiry timing abstracted to 'may expire at any Get'.",
   technique="Lean 4 inductive invariant over an interleaving model parameterised by regenerated protocol facts; preemption-bounded schedule exploration of the real code")
+C["C14"] = dict(engine="E4 conc/keyrace", design_ref="DESIGN.md §4 C14",
+  text="Lean 4 proof over an interleaving model of the key-creation protocol (metastore-call skeleton of loadLatestOrCreateIntermediateKey / createIntermediateKey / loadLatestOrCreateSystemKey / intermediateKeyFromEKR): any number of processes, arbitrary schedules at the granularity of single metastore calls, any well-formed starting store, any clock and policy: rows are never modified or removed, every finished process uses an IK that is stored with exactly the material it uses and whose SK is stored, a process whose insert is refused cannot be using its unsaved material, no process fails, every process finishes within 8 of its own steps. The model is compared call by call with the real SDK on ALL interleavings of 2 processes from 10 starting states (and 3-5 processes up to a limit) through a gate metastore.",
+  note=TB + "Processes run without key caching so that every protocol step is visible (with caches a process makes a subset of these calls; sequential cache behaviour is engine E3). In-memory metastore; KMS/AEAD do not fail here (faults are C02). Interleaving control needs no source hook: every metastore call blocks in the harness until released.",
+  technique="Lean 4 inductive invariant over an N-process interleaving model; exhaustive schedule enumeration of the real SDK through a gate metastore, compared call by call")
+C["C18"] = dict(engine="E1 fmt", design_ref="DESIGN.md §4 C18",
+  text="Lean 4 proofs (unbounded) of the laws of a reference implementation written from the documentation: AES-GCM layout ct||tag(16)||nonce(12) is opened iff it is a seal output, for every block function; base64 / JSON (string level) / record / SQL row / both DynamoDB item shapes / protobuf mapping / key-id / KMS-envelope round trips; whole key-hierarchy round trip; regenerated constants, tags, formats and skeletons equal the documented ones. On every run two-directional translation validation of the Go SDK against that reference (SDK writes -> reference decrypts the full chain; reference writes -> SDK decrypts), raw AEAD byte-for-byte with the PRNG pinned into crypto/rand, and every carrier (encoding/json, SQL row, both AWS marshalers, protobuf).",
+  note=TB + "Go's encoding/json, crypto/aes, AWS marshalers and protobuf codec are validated differentially, not verified; AES itself is tested against NIST vectors and crypto/aes (every GCM theorem holds for an arbitrary block function); ids assumed valid UTF-8; payloads <= gcmMaxDataSize; protobuf mapping drops Revoked and key-id parsing is ambiguous with '_' (both stated as counterexamples).",
+  technique="executable Lean reference codec + structural-induction proofs; decide over regenerated facts; two-pass differential correspondence")
 ENGINES = [
  dict(name="E2 cache", path="lean/AsherahVerif/Model/Cache.lean", serves_properties=["C15"], kind_free_text="Lean model+theorems; go/cmd/hxcache"),
  dict(name="E3 envelope", path="lean/AsherahVerif/Model/Envelope.lean", serves_properties=["C01","C02","C03","C04","C05","C07","C09","C10","C20"], kind_free_text="Lean model of envelope.go/key_cache.go/session.go in a state+error monad, Hoare-style proofs; go/cmd/hxenv with virtual clock overlay; Spec/EnvelopeMon monitors"),
- dict(name="E4 conc", path="lean/AsherahVerif/Model/KeyRef.lean", serves_properties=["C08","C16"], kind_free_text="interleaving models + go/cmd/hxconc schedule exploration"),
+ dict(name="E1 fmt", path="lean/AsherahVerif/Model/Gcm.lean", serves_properties=["C18"], kind_free_text="GCM/AES/codec reference; go/cmd/hxfmt"),
+ dict(name="E4 conc", path="lean/AsherahVerif/Model/KeyRef.lean", serves_properties=["C08","C14","C16"], kind_free_text="interleaving models + go/cmd/hxconc schedule exploration"),
  dict(name="partition", path="lean/AsherahVerif/Model/Partition.lean", serves_properties=["C06"], kind_free_text="byte-level id model; go/cmd/hxpartition"),
  dict(name="E7 kms", path="lean/AsherahVerif/Model/Kms.lean", serves_properties=["C17"], kind_free_text="both AWS KMS plugins; go/cmd/hxkms"),
  dict(name="E8 server", path="lean/AsherahVerif/Model/Server.lean", serves_properties=["C19"], kind_free_text="sidecar handler state machine; go/cmd/hxserver"),
